@@ -55,11 +55,13 @@ def RULE(tier):
         f"{SHAPES3[tier]}, empty shapes {SHAPES0}, plus every chunking with zero-length chunks (<= 3 chunks, n <= 4) x every axis selection "
         "(None, each int, each tuple; negative spellings on a sub-family) x keepdims x split_every in {None,2,3,16,{0:2},{0:3,1:2}}. Data: "
         "distinct ints (seed-permuted), all 0/1 arrays (ties for arg*/topk/any/all), dtypes f8 f4 i1 u1 bool, and float arrays with EVERY "
-        "placement of NaN/+inf/-inf (1-d n<=3 over {v,nan,inf,-inf}, n=4 over {v,nan,inf}"
-        + ("" if tier == "thorough" else " with at most one inf")
-        + (" and {v,nan,-inf}, n=5 over {v,nan}; 2-d (2,2) over {v,nan,inf,-inf}, (2,3) over {v,nan}" if tier == "thorough" else "; 2-d (2,2) over {v,nan}")
+        "placement of NaN/+inf/-inf (1-d n<=3 over {v,nan,inf,-inf}, n=4 over "
+        + ("{v,nan,inf,-inf}" if tier == "thorough" else "{v,nan,inf} with at most one inf")
+        + (", n=5 over {v,nan,inf}; 2-d (2,2) over {v,nan,inf,-inf}, (2,3) over {v,nan}" if tier == "thorough" else "; 2-d (2,2) over {v,nan}")
         + "). Oracle: value, dtype, lazy shape/chunks and per-block shapes equal NumPy's result (tolerance only for mean/var/std/moment/"
-        "nanquantile). non-trivial = >= 2 chunks along a reduced / scanned / selected axis."
+        "nanquantile)."
+        + (" Quick tier: shapes (3,4) and (2,2,2) run the 9 core reductions only." if tier == "quick" else "")
+        + " non-trivial = >= 2 chunks along a reduced / scanned / selected axis."
     )
 
 
@@ -124,10 +126,10 @@ def pat_configs(tier, small=False):
     out = []
     specs = [(1, "vnpm"), (2, "vnpm"), (3, "vnpm"), (4, "vnp")]
     if tier == "thorough" and not small:
-        specs += [(4, "vnm"), (5, "vn")]
+        specs = [(1, "vnpm"), (2, "vnpm"), (3, "vnpm"), (4, "vnpm"), (5, "vnp")]
     one_inf = tier == "quick"  # quick tier, n = 4: at most one +inf per array
     if small:
-        specs = [(1, "vnpm"), (2, "vnpm"), (3, "vnp"), (4, "vn")]
+        specs = [(1, "vnpm"), (2, "vnpm"), (3, "vnp"), (4, "vn")] if tier == "quick" else [(1, "vnpm"), (2, "vnpm"), (3, "vnpm"), (4, "vnp")]
     seen = set()
     for n, alpha in specs:
         for p in itertools.product(alpha, repeat=n):
